@@ -1008,10 +1008,27 @@ def check_entries(ctx):
         ctx.disagree("entry.accountant", "BudgetAccountant(100.0, 0.0, spent_budget=[(0.5, 0.0)])", "ok",
                      f"raised {type(e).__name__}: {e}", note="a valid accountant cannot be constructed")
         return
-    for group, name, has_bounds, f in entries:
-        cases = [(e, (0, 1)) for e in EPS_CAT]
-        if has_bounds:
-            cases += [(1.0, b) for b in BOUNDS_CAT] + [(NAN, (1, 0)), (-1.0, (2, 1))]
+    # invalid bounds crossed with every keyword that changes how bounds are INTERPRETED (dtype casts them, axis / keepdims
+    # route them through the per-cell wrapper): inversions inside one integer cell, below one float32 / float16 ulp
+    small_inv = [(0.9, 0.1), (0.9, -0.9), (5.7, 5.2), (7.9, 7.0), (1 + 1e-9, 1.0), (1.0004, 1.0), (2, 1), (3.5, 3.25),
+                 (-0.1, -0.9), (1e-9, 0.0)]
+    kw_variants = [{"dtype": int}, {"dtype": np.int32}, {"dtype": np.int64}, {"dtype": np.float32}, {"dtype": np.float16},
+                   {"dtype": int, "axis": 0}, {"dtype": int, "keepdims": True}, {"dtype": np.int64, "axis": 1, "keepdims": True},
+                   {"axis": (0, 1)}, {"dtype": float}]
+    xi = (np.arange(60).reshape(30, 2) % 8) + 1
+    for tname in ("sum", "nansum", "mean", "nanmean", "var", "nanvar", "std", "nanstd"):
+        for kw in kw_variants:
+            label = tname + "[" + ",".join(f"{k}={getattr(v, '__name__', v)}" for k, v in kw.items()) + "]"
+            f_ = (lambda tn, kw_: lambda e, b, a: getattr(T, tn)(xi, epsilon=e, bounds=b, accountant=a, **kw_))(tname, kw)
+            entries.append(("tool", label, True, f_, [(1.0, b) for b in small_inv]))
+    for ent in entries:
+        group, name, has_bounds, f = ent[:4]
+        if len(ent) > 4:
+            cases = ent[4]
+        else:
+            cases = [(e, (0, 1)) for e in EPS_CAT]
+            if has_bounds:
+                cases += [(1.0, b) for b in BOUNDS_CAT] + [(NAN, (1, 0)), (-1.0, (2, 1))]
         for e, b in cases:
             acc = BA(100.0, 0.0, spent_budget=[(0.5, 0.0)])
             before = acc_state(acc)
@@ -1134,7 +1151,20 @@ def replay(ctx, data):
     if d.get("unit") in ("tool", "model"):
         calls = dict(tool_calls())
         calls.update(model_calls())
-        f = calls[d["entry"]][1]
+        if d["entry"] in calls:
+            f = calls[d["entry"]][1]
+        else:       # keyword-crossed tool entry "sum[dtype=int,axis=0]"
+            tn, rest = d["entry"].split("[", 1)
+            kw = {}
+            for item in rest.rstrip("]").split(",", ):
+                pass
+            names = {"int": int, "int32": np.int32, "int64": np.int64, "float32": np.float32, "float16": np.float16,
+                     "float": float, "True": True, "0": 0, "1": 1}
+            import re as _re
+            for k, v in _re.findall(r"(\w+)=(\(0, 1\)|\w+)", rest):
+                kw[k] = (0, 1) if v == "(0, 1)" else names[v]
+            xi = (np.arange(60).reshape(30, 2) % 8) + 1
+            f = (lambda tn_, kw_: lambda e, b, a: getattr(T, tn_)(xi, epsilon=e, bounds=b, accountant=a, **kw_))(tn, kw)
         acc = dp.BudgetAccountant(100.0, 0.0, spent_budget=[(0.5, 0.0)])
         before = acc_state(acc)
         with seams.fresh_default_accountant():
